@@ -2,6 +2,7 @@ package verif
 
 import (
 	"fmt"
+	"github.com/bokysan/socketace/v2/internal/simrt"
 	"net"
 	"sort"
 	"strings"
@@ -295,6 +296,30 @@ func scenarioC14(r *Run) {
 				if err != nil {
 					r.Fail("harness", "silent peer could not connect: %v", err)
 					return false
+				}
+				// On the plain stream carriers the peer may also get as far as the announcement (request sent,
+				// answer received) before it falls silent - and it may be lost without a trace rather than hang
+				// up: whatever step of the session set-up it is in, the server must give it up and reclaim it.
+				if carrier == "tcp" || carrier == "unix" {
+					switch c.Pick(3, "silent-peer-variant") {
+					case 1, 2:
+						sc.Write([]byte("X-SOCKETACE / HTTP/1.1\r\nAccepts-Protocol-Version: v2.0.0\r\nUser-Agent: socketace/silent\r\n\r\n"))
+						answered := false
+						go func() {
+							readBlock(sc)
+							answered = true
+						}()
+						r.RunFor(2 * time.Second)
+						if answered {
+							r.Count("silent_peers_after_the_announcement")
+						}
+						if c.Chance(1, 2, "silent-peer-lost-without-a-trace") {
+							if cn, ok := sc.(*simrt.Conn); ok {
+								r.Net.Blackhole(cn, true)
+								r.Count("silent_peers_lost_without_a_trace")
+							}
+						}
+					}
 				}
 				r.RunFor(time.Duration(35+c.Pick(30, "silent-s")) * time.Second)
 				sc.Close()
